@@ -199,6 +199,7 @@ func c02model(c *Ctx, a *c02) {
 			parMsg = fmt.Sprintf("%s: no segment is crossed and none contains the point, yet the result is %d (want Outside)", sh.name, st)
 			break
 		}
+		covCalls := append([]segCall{}, calls...) // the questions of the all-false run
 		for _, pf := range preds {
 			count := map[string]int{}
 			n := 0
@@ -241,7 +242,7 @@ func c02model(c *Ctx, a *c02) {
 		// --- roles and single-segment effects
 		for _, pf := range preds {
 			used := false
-			for _, cl := range calls {
+			for _, cl := range covCalls {
 				if cl.fn == pf {
 					used = true
 				}
